@@ -337,6 +337,8 @@ pub fn c05(tier: &str) -> ! {
     if t {
         run_sched(&mut rep, "sharp/p2d4", &c05_sharp(), (2, 4), 16, false, 2, Duration::from_secs(2400), own);
         run_sched(&mut rep, "generated/p2d3", &c05_generated(), (2, 3), 2, false, 2, Duration::from_secs(1500), own);
+        // one bound deeper, as far as the budget goes (reported as capped if it does not finish)
+        run_sched(&mut rep, "sharp/p3d5", &c05_sharp(), (3, 5), 16, false, 2, Duration::from_secs(1500), own);
     } else {
         run_sched(&mut rep, "sharp/p1d4", &c05_sharp(), (1, 4), 4, false, 1, Duration::from_secs(30), own);
         run_sched(&mut rep, "generated/p1d4", &c05_generated(), (1, 4), 1, false, 1, Duration::from_secs(25), own);
